@@ -71,7 +71,9 @@ const settleQuiet = 1500 * time.Microsecond
 const settleBlocked = 30 * time.Millisecond
 const settleMax = 2 * time.Second
 
-func runScenario(sc *scenario) *result {
+func runScenario(orig *scenario) *result {
+	scv := *orig // the "react" steps change the mode as they go: work on a copy so that a scenario can be run again
+	sc := &scv
 	l := newLog()
 	sess := newRecSession(l)
 	for k, v := range sc.failSess {
